@@ -22,5 +22,8 @@ Ltac eqb_false := apply Z.eqb_neq; lia.
 Ltac eqb_true := apply Z.eqb_eq; lia.
 
 (* element-wise proof of an equality between two lists with the same concrete spine *)
-Ltac list_lia := rewrite ?Z.div_div by lia; repeat (apply (f_equal2 (@cons Z)); [lia|]); try reflexivity.
-Ltac list_lia_timed := rewrite ?Z.div_div by lia; repeat (apply (f_equal2 (@cons Z)); [time (timeout 60 lia)|]); try reflexivity.
+Ltac list_lia := repeat (apply (f_equal2 (@cons Z)); [lia|]); try reflexivity.
+Ltac list_lia_timed := repeat (apply (f_equal2 (@cons Z)); [time (timeout 60 lia)|]); try reflexivity.
+
+(* same after folding chains of divisions a / b / c into a / (b * c) (much easier for lia) *)
+Ltac list_lia_dd := rewrite !Z.div_div by lia; list_lia.
